@@ -2,6 +2,7 @@ import Driver.Proto
 import Verif.Spec.HtmlAttr
 import Verif.Model.HtmlAttr
 import Verif.Spec.HtmlKnown
+import Verif.Model.Html
 /-! driver handlers for property C03 (ops `model.*`, `spec.*`, `trig.*`) -/
 namespace Verif.Driver.C03
 open Verif Verif.Driver
@@ -67,7 +68,72 @@ def trigRefs : Handler := fun args => do
     (if Spec.HtmlKnown.hexOverflow raw then ["hexoverflow"] else [])
   .ok (strBytes (if names.isEmpty then "none" else ",".intercalate names))
 
+/-! ### the token loop -/
+open Verif.Model.Html in
+def optsOf (m : Nat) : Opts :=
+  { keepComments := m % 2 = 1, keepSpecialComments := m / 2 % 2 = 1, keepDefaultAttrVals := m / 4 % 2 = 1,
+    keepDocumentTags := m / 8 % 2 = 1, keepEndTags := m / 16 % 2 = 1, keepQuotes := m / 32 % 2 = 1,
+    keepWhitespace := m / 64 % 2 = 1 }
+
+open Verif.Model.Html in
+def decodeAttrs : List Bytes → Except String (List Attr)
+  | [] => .ok []
+  | n :: v :: d :: t :: r => do
+    let rest ← decodeAttrs r
+    .ok ({ name := bytesToChars n, val := bytesToChars v, data := bytesToChars d, tmpl := t == [49] } :: rest)
+  | _ => .error "bad attribute group"
+
+open Verif.Model.Html in
+def decodeTok (g : List Bytes) : Except String HTok :=
+  match g with
+  | k :: r =>
+    let kind := bytesToChars k
+    if kind == ['T'] then match r with
+      | [d, t] => .ok (.text (bytesToChars d) (t == [49]))
+      | _ => .error "bad text token"
+    else if kind == ['S'] then match r with
+      | n :: as => do .ok (.startTag (bytesToChars n) (← decodeAttrs as))
+      | _ => .error "bad start tag"
+    else if kind == ['E'] then match r with
+      | [n, d] => .ok (.endTag (bytesToChars n) (bytesToChars d))
+      | _ => .error "bad end tag"
+    else if kind == ['C'] then match r with
+      | [d, t] => .ok (.comment (bytesToChars d) (bytesToChars t))
+      | _ => .error "bad comment"
+    else if kind == ['D'] then .ok .doctype
+    else if kind == ['V'] then match r with | [d] => .ok (.svg (bytesToChars d)) | _ => .error "bad svg"
+    else if kind == ['M'] then match r with | [d] => .ok (.math (bytesToChars d)) | _ => .error "bad math"
+    else if kind == ['P'] then match r with | [d] => .ok (.template (bytesToChars d)) | _ => .error "bad template"
+    else .error "unknown token kind"
+  | [] => .error "empty token group"
+
+/-- the recording stub minifier of the harness: `[label|i or -|payload]`; the label is the media type when the
+    harness registered a stub under that literal type, `?` for the catch-all pattern -/
+def stubLabels : List String :=
+  ["text/css", "application/javascript", "text/javascript", "image/svg+xml", "application/mathml+xml", "text/html",
+   "application/json", "application/ld+json", "module"]
+
+def stubSub (mime : List Char) (inline : Bool) (payload : List Char) : List Char :=
+  let label := if stubLabels.any (fun l => l.toList == mime) then mime else ['?']
+  '[' :: label ++ ['|', if inline then 'i' else '-', '|'] ++ payload ++ [']']
+
+/-- `model.c03.minify optsMask subMode ext tokens` -/
+def minifyOp : Handler := fun args => do
+  let m ← argNat args 0
+  let subMode ← argNat args 1
+  let extG ← argGroups args 2
+  let toksG ← argGroups args 3
+  let ext ← extG.mapM (fun g => match g with
+    | [k, i, o] => .ok (bytesToChars k, bytesToChars i, bytesToChars o)
+    | _ => .error "bad ext group")
+  let toks ← toksG.mapM decodeTok
+  let sub : Verif.Model.Html.Sub := if subMode = 0 then none else some stubSub
+  match Verif.Model.Html.htmlMinify (optsOf m) ext sub toks with
+  | .ok out => .ok (charsToBytes out)
+  | .error e => .error e
+
 def handlers : List (String × Handler) := [
+  ("model.c03.minify", minifyOp),
   ("trig.c03.refs", trigRefs),
   ("model.c03.replent", replent),
   ("model.c03.escape", escape),
